@@ -103,9 +103,6 @@ type frResult struct {
 	Deviation  string                   `json:"deviation,omitempty"`
 }
 
-var frGated = map[string]bool{"sub.handler.msg": true, "se.listen.write": true, "conn.write.hdr": true, "conn.write.payload": true,
-	"conn.write.frame": true, "sub.heartbeat.tick": true}
-
 // runFrames: two writers are brought to the point of writing a frame at the same time.
 // mode "listeners": two subscriptions' Listen goroutines; mode "heartbeat": one Listen and the heartbeat.
 func runFrames(e *env, mode string, id string) (res frResult) {
@@ -116,13 +113,8 @@ func runFrames(e *env, mode string, id string) (res frResult) {
 	}
 	hb := mode == "heartbeat"
 	big := mode == "bigevents"
-	s := sched.New(true, func(k string) bool {
-		b := baseKey(k)
-		if b == "sub.heartbeat.tick" {
-			return hb
-		}
-		return frGated[b]
-	})
+	// only the Write calls on the client connection are gated: no hook point of the repository is needed here
+	s := sched.New(true, func(k string) bool { return strings.HasPrefix(k, "conn.write.") && k != "conn.write.http" })
 	rt.begin(s)
 	defer func() {
 		s.Open()
@@ -133,19 +125,12 @@ func runFrames(e *env, mode string, id string) (res frResult) {
 		return dev("dial: %v", err)
 	}
 	defer cl.reset()
-	pass := func(key string) bool {
-		if !s.WaitParked(key, stepTimeout) {
-			return false
-		}
-		s.Release(key)
-		return true
-	}
-	// one Write call (or two) of the handler: the ack
+	writeKeys := []string{"conn.write.hdr", "conn.write.payload", "conn.write.frame"}
 	passWrites := func() {
 		for {
 			p := s.Parked()
 			done := true
-			for _, k := range []string{"conn.write.hdr", "conn.write.payload", "conn.write.frame"} {
+			for _, k := range writeKeys {
 				if p[k] > 0 {
 					s.Release(k)
 					done = false
@@ -158,9 +143,6 @@ func runFrames(e *env, mode string, id string) (res frResult) {
 		}
 	}
 	cl.send(map[string]string{"type": "connection_init"})
-	if !pass("sub.handler.msg") {
-		return dev("setup: init")
-	}
 	dl := time.Now().Add(stepTimeout)
 	for cl.countType("connection_ack") == 0 && time.Now().Before(dl) {
 		passWrites()
@@ -176,12 +158,13 @@ func runFrames(e *env, mode string, id string) (res frResult) {
 	var ups []*upConn
 	for i := 0; i < nsub; i++ {
 		cl.start(fmt.Sprintf("s%d", i+1), tdQuery, map[string]interface{}{}, "")
-		if !pass("sub.handler.msg") {
-			return dev("setup: start %d", i)
-		}
 		select {
 		case up := <-e.ups[e.w.Services[0].URL].conns:
-			<-up.started
+			select {
+			case <-up.started:
+			case <-time.After(stepTimeout):
+				return dev("setup: no upstream start %d", i)
+			}
 			ups = append(ups, up)
 		case <-time.After(stepTimeout):
 			return dev("setup: no upstream connection %d", i)
@@ -196,84 +179,63 @@ func runFrames(e *env, mode string, id string) (res frResult) {
 	if big {
 		items = []string{"Item_big", "Item_big"}
 	}
-	wkey := func(i int) string {
-		if i == 0 {
-			return "se.listen.write"
-		}
-		return fmt.Sprintf("se.listen.write#%d", i+1)
-	}
 	for i, up := range ups {
 		if err := up.SendData(e.payloadFor(up, "itemChanged", world.R(items[i]))); err != nil {
 			return dev("upstream write: %v", err)
 		}
-		if !s.WaitParked(wkey(i), stepTimeout) {
-			return dev("Listen %d did not reach its write; parked %v", i+1, parkedList(s))
-		}
 	}
-	second := wkey(1)
+	// the writers arrive at the connection: every subscription's Listen with its event, and the heartbeat with its
+	// keep-alive (period 4 s).  Each is parked inside its first Write call.
+	first := func() int { p := s.Parked(); return p["conn.write.frame"] + p["conn.write.hdr"] }
+	writers := nsub
+	wait := stepTimeout
 	if hb {
-		second = "sub.heartbeat.tick"
-		if !s.WaitParked(second, 6*time.Second) {
-			return dev("no heartbeat tick within 6 s")
+		writers, wait = 2, 7*time.Second
+	}
+	dl = time.Now().Add(wait)
+	for first() < writers && time.Now().Before(dl) {
+		time.Sleep(200 * time.Microsecond)
+		if !hb && first() >= 1 && time.Until(dl) < wait-500*time.Millisecond {
+			break // only one writer gets to the connection at a time
 		}
 	}
-	// both writers are let go up to their first Write call on the connection
-	arrived := func() (int, int) { return s.Count("conn.write.frame"), s.Count("conn.write.hdr") }
-	observe := func(release string, wait time.Duration) (string, bool) {
-		f0, h0 := arrived()
-		s.Release(release)
-		dl := time.Now().Add(wait)
-		for time.Now().Before(dl) {
-			f, h := arrived()
-			if f > f0 {
-				return "frame", true
-			}
-			if h > h0 {
-				return "hdr", true
-			}
-			time.Sleep(100 * time.Microsecond)
-		}
-		return "", false
-	}
-	k1, ok := observe(wkey(0), stepTimeout)
-	if !ok {
-		return dev("writer 1 did not write; parked %v", parkedList(s))
-	}
-	k2, ok2 := observe(second, 400*time.Millisecond)
+	p := s.Parked()
 	switch {
-	case !ok2:
-		// writer 2 does not get to the connection while writer 1 is inside its frame: the writers are serialised
+	case first() == 0:
+		return dev("no writer reached the connection")
+	case first() < writers:
+		// a writer does not get to the connection while another one is inside its frame: the writers are serialised
 		res.Serialised = true
 		dl := time.Now().Add(stepTimeout)
 		for time.Now().Before(dl) && cl.countType("data") < nsub {
 			passWrites()
 			time.Sleep(time.Millisecond)
 		}
-	case k1 == "frame" && k2 == "frame":
+	case p["conn.write.hdr"] == 0:
 		// one Write call per frame: nothing can get in between
-		s.Release("conn.write.frame", "conn.write.frame")
+		for i := 0; i < p["conn.write.frame"]; i++ {
+			s.Release("conn.write.frame")
+		}
 	default:
-		// at least one writer hands its frame over in pieces: its header goes out, then everything of the other
-		// writer, then its payload
+		// at least one writer hands its frame over in pieces: ITS header goes out first, then everything the other
+		// writers have (whole frames, headers), then the payloads
 		s.Release("conn.write.hdr")
 		if !s.WaitParked("conn.write.payload", stepTimeout) {
 			return dev("no payload write after a header; parked %v", parkedList(s))
 		}
-		if k1 == "hdr" && k2 == "hdr" {
-			s.Release("conn.write.hdr")
-			dl := time.Now().Add(stepTimeout)
-			for s.Parked()["conn.write.payload"] < 2 && time.Now().Before(dl) {
-				time.Sleep(100 * time.Microsecond)
-			}
-			if s.Parked()["conn.write.payload"] < 2 {
-				return dev("two payload writes expected; parked %v", parkedList(s))
-			}
-			s.Release("conn.write.payload", "conn.write.payload")
-		} else {
-			n := s.Count("conn.write.frame")
+		for i := 0; i < p["conn.write.frame"]; i++ {
 			s.Release("conn.write.frame")
-			_ = n
-			time.Sleep(5 * time.Millisecond) // the whole frame of the other writer is on the wire
+		}
+		others := p["conn.write.hdr"] - 1
+		for i := 0; i < others; i++ {
+			s.Release("conn.write.hdr")
+		}
+		dl := time.Now().Add(stepTimeout)
+		for s.Parked()["conn.write.payload"] < 1+others && time.Now().Before(dl) {
+			time.Sleep(100 * time.Microsecond)
+		}
+		time.Sleep(5 * time.Millisecond) // what was let go is on the wire
+		for i := 0; i < 1+others; i++ {
 			s.Release("conn.write.payload")
 		}
 		res.Forced = true
